@@ -95,10 +95,10 @@ check("C03", "exploration",
 check("C04", "exploration",
       "Every control skeleton with <=2 compound nodes over if/else, while(/else), for-in(/else), C-style for, do-while, switch with "
       "fall-through, try/except/else/finally forms, break, continue, return, raise, nested def - rendered in Python (17.8 k methods) "
-      "and JavaScript, Java, C, PHP, Go (quick: all 1-compound skeletons and the loop/switch x jump pairs, 8 k methods each; thorough: "
-      "all, 112 k each); C-family kinds include for without update and a default label in the middle; skeletons are also rendered "
-      "with every test as a comparison, so that the statements computing the condition are part of the path (quick: 0/1-compound "
-      "skeletons) - lowered by the real lang phase, CFGs built by the real P1 analysis; for every method every decision vector "
+      "and JavaScript, Java, C, PHP, Go (all 1-compound skeletons and the loop/switch x jump pairs, 8 k methods each; thorough: in addition "
+      "every 2-compound skeleton for JavaScript, 112 k); C-family kinds include for without update and a default label in the middle; skeletons are also rendered "
+      "with every test as a comparison, so that the statements computing the condition are part of the path (0/1-compound "
+      "skeletons; thorough also the pairs) - lowered by the real lang phase, CFGs built by the real P1 analysis; for every method every decision vector "
       "of length <=6 (thorough 8) is executed by the reference GIR interpreter in oracle mode (each test, loop iteration, case match "
       "and 'did this try-body statement raise' consumes one bit) and the executed-statement sequence must be a CFG path from an entry "
       "node to the exit node; CFG nodes must belong to the method.",
